@@ -188,14 +188,15 @@ theorem esarsaStep_Bdd (lo hi γ α : Rat) (A : Nat) (π : Nat → Nat → Rat) 
 /-- DoubleQLearning: both `qa` and `qb = qc − qa` are bounded -/
 def DQBdd (lo hi : Rat) (d : DQ) : Prop := Bdd lo hi d.qa ∧ Bdd lo hi d.qb
 
-theorem dqStep_Bdd (lo hi γ α : Rat) (A : Nat) (d : DQ) (coin : Bool) (s a s1 : Nat) (r : Rat)
+/-- whichever action is bootstrapped from (any tie-break of the arg-max) -/
+theorem dqStepAt_Bdd (lo hi γ α : Rat) (d : DQ) (coin : Bool) (a1 s a s1 : Nat) (r : Rat)
     (hγ0 : 0 ≤ γ) (hα0 : 0 ≤ α) (hα1 : α ≤ 1) (hc : Closed lo hi γ r) (hd : DQBdd lo hi d) :
-    DQBdd lo hi (dqStep γ α A d coin s a s1 r) := by
+    DQBdd lo hi (dqStepAt γ α d coin a1 s a s1 r) := by
   obtain ⟨ha, hb⟩ := hd
   cases coin with
   | true =>
-    simp only [dqStep, if_true]
-    have key := mix_in lo hi (d.qa s a) (r + γ * (d.qc s1 (argmaxA A (d.qa s1)) - d.qa s1 (argmaxA A (d.qa s1)))) α
+    simp only [dqStepAt, if_true]
+    have key := mix_in lo hi (d.qa s a) (r + γ * (d.qc s1 a1 - d.qa s1 a1)) α
       hα0 hα1 (ha s a) (target_in lo hi γ r _ hγ0 hc (hb s1 _))
     constructor
     · exact Bdd_upd lo hi _ s a _ ha key
@@ -207,18 +208,23 @@ theorem dqStep_Bdd (lo hi γ α : Rat) (A : Nat) (d : DQ) (coin : Bool) (s a s1 
         constructor <;> linarith [this.1, this.2]
       · exact this
   | false =>
-    simp only [dqStep, Bool.false_eq_true, if_false]
+    simp only [dqStepAt, Bool.false_eq_true, if_false]
     refine ⟨ha, ?_⟩
     intro s' a'
     have hb' := hb s' a'
     have key := mix_in lo hi (d.qc s a - d.qa s a)
-      (r + γ * d.qa s1 (argmaxA A (fun x => d.qc s1 x - d.qa s1 x))) α hα0 hα1 (hb s a)
+      (r + γ * d.qa s1 a1) α hα0 hα1 (hb s a)
       (target_in lo hi γ r _ hγ0 hc (ha s1 _))
     simp only [DQ.qb, upd] at hb' ⊢
     split <;> rename_i h
     · obtain ⟨rfl, rfl⟩ := h
       constructor <;> linarith [key.1, key.2]
     · exact hb'
+
+theorem dqStep_Bdd (lo hi γ α : Rat) (A : Nat) (d : DQ) (coin : Bool) (s a s1 : Nat) (r : Rat)
+    (hγ0 : 0 ≤ γ) (hα0 : 0 ≤ α) (hα1 : α ≤ 1) (hc : Closed lo hi γ r) (hd : DQBdd lo hi d) :
+    DQBdd lo hi (dqStep γ α A d coin s a s1 r) :=
+  dqStepAt_Bdd lo hi γ α d coin _ s a s1 r hγ0 hα0 hα1 hc hd
 
 /-! ### histories -/
 
@@ -445,7 +451,7 @@ theorem dq_qstar_fixed (α : Rat) (coin : Bool) (s a : Nat) :
   have hb : (fun x => q (next s a) x * 2 - q (next s a) x) = q (next s a) := by funext x; ring
   cases coin with
   | true =>
-    simp only [dqStep, if_true]
+    simp only [dqStep, dqStepAt, dqArg, if_true]
     have hch : α * (R s a + γ * (q (next s a) (argmaxA A (q (next s a))) * 2 - q (next s a) (argmaxA A (q (next s a)))) - q s a) = 0 := by
       have : q (next s a) (argmaxA A (q (next s a))) * 2 - q (next s a) (argmaxA A (q (next s a)))
           = maxA A (q (next s a)) := by rw [← argmaxA_spec A (q (next s a))]; ring
@@ -455,7 +461,7 @@ theorem dq_qstar_fixed (α : Rat) (coin : Bool) (s a : Nat) :
     · apply upd_self; ring
     · exact upd_self (fun s a => q s a * 2) s a _ (by ring)
   | false =>
-    simp only [dqStep, Bool.false_eq_true, if_false]
+    simp only [dqStep, dqStepAt, dqArg, Bool.false_eq_true, if_false]
     congr 1
     refine upd_self (fun s a => q s a * 2) s a _ ?_
     rw [hb, argmaxA_spec A (q (next s a))]
